@@ -116,7 +116,8 @@ fn classify(op: &str, imp: &str, model: &str) -> String {
     if st(imp) != st(model) {
         return "status".into();
     }
-    if op == "matrix" || op == "decaps" {
+    // query operations: their output *is* an outcome the properties talk about
+    if matches!(op, "matrix" | "decaps" | "covers" | "c08" | "pke_dec" | "hdr_dec") {
         return "behaviour".into();
     }
     "state".into()
@@ -134,19 +135,40 @@ pub fn first_mismatch(lines: &[String], imp: &[String], model: &[String]) -> Opt
     None
 }
 
+/// the first disagreement on an *outcome* (ok/err status, decaps result, panic), if any; such a
+/// disagreement is a concrete input on which the implementation and the proved model differ in
+/// what the properties talk about, whereas a state-only difference (a dump) is not yet one
+pub fn first_behaviour_mismatch(lines: &[String], imp: &[String], model: &[String]) -> Option<(usize, String)> {
+    for i in 0..lines.len() {
+        let a = imp.get(i).map(|s| s.as_str()).unwrap_or("<missing>");
+        let b = model.get(i).map(|s| s.as_str()).unwrap_or("<missing>");
+        if normalize(a) != normalize(b) {
+            let op = lines[i].split(' ').next().unwrap_or("").to_string();
+            let k = classify(&op, a, b);
+            if k != "state" {
+                return Some((i, k));
+            }
+        }
+    }
+    None
+}
+
 /// delta debugging on the op list (the first two lines — reset, setup — are kept)
-pub fn shrink(driver: &str, lines: &[String], budget: usize) -> Vec<String> {
+pub fn shrink(driver: &str, lines: &[String], budget: usize, behaviour: bool) -> Vec<String> {
     let keep = 2.min(lines.len());
     let mut cur: Vec<String> = lines.to_vec();
     let mut tries = 0;
+    let pick = |ls: &[String], i: &[String], m: &[String]| -> Option<(usize, String)> {
+        if behaviour { first_behaviour_mismatch(ls, i, m) } else { first_mismatch(ls, i, m) }
+    };
     let fails = |ls: &[String]| -> bool {
         let (i, m) = run_both(driver, ls);
-        first_mismatch(ls, &i, &m).is_some()
+        pick(ls, &i, &m).is_some()
     };
-    // first truncate after the first mismatch
+    // first truncate after the mismatch of interest
     {
         let (i, m) = run_both(driver, &cur);
-        if let Some((k, _)) = first_mismatch(&cur, &i, &m) {
+        if let Some((k, _)) = pick(&cur, &i, &m) {
             cur.truncate(k + 1);
         }
     }
@@ -174,6 +196,107 @@ pub fn shrink(driver: &str, lines: &[String], budget: usize) -> Vec<String> {
         }
     }
     cur
+}
+
+/// `R{right:[e,e];right:[..]}` -> right -> tokens (flags and flavours stripped: `1c#6` -> `#6`)
+fn parse_chains(dump: &str) -> std::collections::BTreeMap<String, Vec<String>> {
+    let mut out = std::collections::BTreeMap::new();
+    let Some(i) = dump.find(" R{") else { return out };
+    let body = &dump[i + 3..];
+    let Some(j) = body.find('}') else { return out };
+    for ent in body[..j].split(';') {
+        let Some((r, c)) = ent.split_once(":[") else { continue };
+        let toks: Vec<String> = c.trim_end_matches(']').split(',').filter(|s| !s.is_empty())
+            .map(|e| e[e.find('#').unwrap_or(0)..].to_string()).collect();
+        out.insert(r.to_string(), toks);
+    }
+    out
+}
+
+/// Specification oracles evaluated directly on the implementation's canonical dumps:
+///  * after a successful refresh every secret of the user key is a secret the master key still
+///    holds for that right (C05) and each chain starts with the master key's newest secret (C04);
+///  * after a failing update / rekey / keygen / refresh the master key (and the user key passed)
+///    are exactly what they were (C10).
+pub fn history_oracles(case: &Case, imp: &[String]) -> Vec<serde_json::Value> {
+    // the access structure inside the master key is edited directly by the structure operations:
+    // it is not part of what a failing key operation may not touch here
+    fn strip_structure(d: &str) -> String {
+        match (d.find(" S{"), d.find("} R{")) {
+            (Some(a), Some(b)) if a < b => format!("{}{}", &d[..a], &d[b + 1..]),
+            _ => d.to_string(),
+        }
+    }
+    let mut fails = vec![];
+    let mut last_msk: std::collections::HashMap<String, String> = Default::default();
+    let mut last_usk: std::collections::HashMap<String, String> = Default::default();
+    for (i, (l, o)) in case.lines.iter().zip(imp.iter()).enumerate() {
+        let t: Vec<&str> = l.split(' ').collect();
+        let op = t[0];
+        if op == "reset" {
+            last_msk.clear();
+            last_usk.clear();
+            continue;
+        }
+        if op == "copy" && t.len() == 3 {
+            if let Some(v) = last_msk.get(t[1]).cloned() { last_msk.insert(t[2].to_string(), v); }
+            if let Some(v) = last_usk.get(t[1]).cloned() { last_usk.insert(t[2].to_string(), v); }
+            continue;
+        }
+        let mut fail = |oracle: &str, what: String| {
+            fails.push(serde_json::json!({"kind": "impl-oracle", "oracle": oracle, "tags": [op], "what": what,
+                "lines": case.lines[..=i].to_vec(), "impl": o, "line_no": i, "case": case.name}));
+        };
+        let is_err = o.starts_with("err ");
+        let is_ok = o.starts_with("ok ");
+        // the part of the output after the status (and the error kind)
+        let payload = if is_err { o.splitn(3, ' ').nth(2).unwrap_or("") } else if is_ok { &o[3..] } else { "" };
+        let (first, second) = match payload.split_once(" | ") { Some((a, b)) => (a, b), None => (payload, "") };
+        match op {
+            "setup" | "update" | "rekey" | "prune" | "keygen" | "refresh" | "dump" if first.starts_with("msk ") => {
+                let m = t[1].to_string();
+                if is_err {
+                    if let Some(prev) = last_msk.get(&m) {
+                        if strip_structure(prev) != strip_structure(first) {
+                            fail("failed-call-modified-key", format!("{op} failed but the master key changed"));
+                        }
+                    }
+                }
+                last_msk.insert(m, first.to_string());
+                if op == "keygen" && is_ok && second.starts_with("usk ") {
+                    last_usk.insert(t[2].to_string(), second.to_string());
+                }
+                if op == "refresh" && second.starts_with("usk ") {
+                    if is_err {
+                        if let Some(prev) = last_usk.get(t[2]) {
+                            if prev != second {
+                                fail("failed-call-modified-key", "refresh failed but the user key changed".to_string());
+                            }
+                        }
+                    } else if is_ok {
+                        let mc = parse_chains(first);
+                        let uc = parse_chains(second);
+                        for (r, chain) in &uc {
+                            match mc.get(r) {
+                                None => fail("refreshed-key-holds-removed-secret", format!("refreshed key keeps right {r} which the master key no longer holds")),
+                                Some(m) => {
+                                    if let Some(x) = chain.iter().find(|x| !m.contains(x)) {
+                                        fail("refreshed-key-holds-removed-secret", format!("refreshed key holds secret {x} of right {r} which the master key no longer holds"));
+                                    }
+                                    if chain.first() != m.first() {
+                                        fail("refreshed-key-misses-newest-secret", format!("refreshed key's chain of right {r} does not start with the master key's newest secret"));
+                                    }
+                                }
+                            }
+                        }
+                    }
+                    last_usk.insert(t[3].to_string(), second.to_string());
+                }
+            }
+            _ => {}
+        }
+    }
+    fails
 }
 
 #[derive(Default)]
@@ -280,6 +403,11 @@ pub fn run_cases(driver: &str, cases: Vec<Case>, workers: usize, max_shrink: usi
                 "impl_last": imp.last(),
             }));
         }
+        if c.lines.first().map(|s| s == "reset").unwrap_or(false) && oracle_failures.len() < 50 {
+            let hf = history_oracles(c, imp);
+            oracle_checked += c.lines.len();
+            oracle_failures.extend(hf.into_iter().take(3));
+        }
         for (k, ex) in &c.expect {
             oracle_checked += 1;
             let got = imp.get(*k).cloned().unwrap_or_default();
@@ -306,7 +434,8 @@ pub fn run_cases(driver: &str, cases: Vec<Case>, workers: usize, max_shrink: usi
                 }));
             }
         }
-        if let Some((k, kind)) = first_mismatch(&c.lines, imp, &model) {
+        let beh = first_behaviour_mismatch(&c.lines, imp, &model);
+        if let Some((k, kind)) = beh.clone().or_else(|| first_mismatch(&c.lines, imp, &model)) {
             let mut mm = Mismatch {
                 case: c.name.clone(),
                 line_no: k,
@@ -318,9 +447,10 @@ pub fn run_cases(driver: &str, cases: Vec<Case>, workers: usize, max_shrink: usi
                 shrunk: false,
             };
             if mismatches.len() < max_shrink && c.lines.first().map(|s| s == "reset").unwrap_or(false) {
-                let small = shrink(driver, &c.lines, 120);
+                let small = shrink(driver, &c.lines, 120, beh.is_some());
                 let (i, m) = run_both(driver, &small);
-                if let Some((k2, kind2)) = first_mismatch(&small, &i, &m) {
+                let again = if beh.is_some() { first_behaviour_mismatch(&small, &i, &m) } else { first_mismatch(&small, &i, &m) };
+                if let Some((k2, kind2)) = again {
                     mm.lines = small.clone();
                     mm.line_no = k2;
                     mm.op = small[k2].split(' ').next().unwrap_or("").to_string();
